@@ -7,3 +7,4 @@ import SimuVerif.Properties.C12
 import SimuVerif.Properties.C01
 import SimuVerif.Properties.C11
 import SimuVerif.Properties.C10
+import SimuVerif.Properties.C02
